@@ -104,7 +104,7 @@ class C16Check:
 
             return c16.gen_server_case(rng)
         classes = ["TaskPool", "SimpleTaskPool", "ExtTaskPool", "ExtSimpleTaskPool"]
-        width = 80 if i % 8 < 2 else rng.choice([rng.randint(10, 40), rng.randint(20, 120), rng.randint(60, 400)])
+        width = 80 if i % 8 < 2 else rng.choice([rng.randint(0, 9), rng.randint(10, 40), rng.randint(20, 120), rng.randint(60, 400)])
         return {"cls": classes[i % 4], "width": width, "name": rng.choice([None, "p", "my-pool", "ünï"]), "long_first": rng.choice([0, 0, 5000, 9000])}
 
     def run_case(self, case, verbose=False):
